@@ -103,11 +103,16 @@ def hgts(variant):
     return [h + s if 1.0 < abs(h) < 1000.0 else h for h in base]
 
 
+N_BASES = 5
+
+
 def bases(variant):
     b = [(2.35, 48.85, 35.0), (-179.9, -60.0, 500.0), (0.0, 0.0, 0.0), (100.0, 89.0, 10.0)]
     s = SHIFT[variant]
     b = [(lo + s, la + s, h) if (lo, la) != (0.0, 0.0) and la < 80 else (lo, la, h) for lo, la, h in b]
-    return alpha.order(variant, b)
+    b = alpha.order(variant, b)
+    # one more base: the same place as the first one, 120 m higher (two bases that differ in their third coordinate only)
+    return b + [(b[0][0], b[0][1], b[0][2] + 120.0)]
 
 
 def l93_lattice(variant):
@@ -345,7 +350,7 @@ FORMS = ["geo", "ecef"]
 
 def events(which):
     ev = [("geo",), ("ecef",)]
-    for i in range(4):
+    for i in range(N_BASES):
         for f in FORMS:
             ev.append(("enu", i, f))
     ev.append(("enu0",))
